@@ -251,12 +251,14 @@ Lossy ==
           /\ phase' = "done" /\ UNCHANGED lossyv
 
 -----------------------------------------------------------------------------
-Init ==
-  /\ case \in Cases
+InitWith(c) ==
+  /\ case = c
   /\ phase = "lex"
   /\ pos = 1 /\ sol = TRUE /\ cc = 0 /\ ind = FALSE /\ toks = <<>>
   /\ pc = "root0" /\ tp = 1 /\ out = <<>> /\ nerr = 0 /\ content = <<>> /\ steps = 0
   /\ lpc = "top" /\ lp = 1 /\ lparas = <<>> /\ lcur = <<>> /\ lstat = "run"
+
+Init == \E c \in Cases : InitWith(c)
 
 Next == Lex \/ Parse \/ Lossy
 Spec == Init /\ [][Next]_vars
